@@ -16,7 +16,8 @@ RULE = ("Problems of C01 (poly_trend 1-3, 0-2 offsets, custom t_ref, jitter) wit
         "(merged) data's reference epoch; samples.ln_unmarginalized_likelihood(data') == sum ln N(y' | M x, sigma^2+s^2) "
         "with each survey's offset subtracted; Bayes identity closed-form marginal(theta) == ln p(y'|theta,x) [code] + "
         "ln p(x|theta) - ln N(x|a,A) [closed form]; reported ln_likelihood == closed-form marginal (C01 comparison, "
-        "recorded defects recognised). Non-trivial: (poly_trend>=2 or custom t_ref or offsets or s>0) and K != 0, e > 0.")
+        "recorded defects recognised). Non-trivial: (poly_trend>=2 or custom t_ref or offsets or s>0) and K != 0, e > 0."
+        ' Also: returned linear columns == the recorded multivariate_normal draws (block-wise for 1-3 draws per sample); members of multi-survey input with own (shared / distinct, TCB / UTC) reference epochs; comparison data with uncertainties in another unit.')
 SHARDS = {"quick": 4, "thorough": 16}
 BUDGET = {"quick": 80, "thorough": 800}
 
